@@ -48,12 +48,13 @@ def correct_last_timing(c):
 
 # ------------------------------------------------------------------------------------ bounded part
 
-TEXTS = ["HELLO THERE", "   centred title", "  speaker one", "GENERAL KENOBI", "YOU ARE A BOLD ONE", "OK", "A", "it's 5 o'clock.", "One, two!", "x y z",
+TEXTS = ["HELLO THERE", "   centred title", "  speaker one", "    FOUR BLANKS FIRST", "AT B B C", " B B B", "A ROW OF EXACTLY THIRTY-TWO CHAR ", "LOW  ",
+         "GENERAL KENOBI", "YOU ARE A BOLD ONE", "OK", "A", "it's 5 o'clock.", "One, two!", "x y z",
          "THE QUICK BROWN FOX JUMPS", "over", "12345 67890",
          "Seg\u00fan el men\u00fa", "\u00e1\u00e9\u00ed\u00f3\u00fa \u00e7\u00f7\u00d1\u00f1\u2588", "[ab]=c/d; e+f<g>h? #1 $2 %3 &4@6", "(5) \"q\" it's: x-y, z.",
          "\u00c9l no viene", "\u00a1Hola!", "MA\u00d1ANA \u00c1 \u00fc", "\u00d3",
          "A ROW OF EXACTLY THIRTY-TWO CHAR", "thirty-one characters in this row"[:31], "ABCDEFGHIJKLMNOPQRSTUVWXYZ012345"]
-assert [len(t_) for t_ in TEXTS[-3:]] == [32, 31, 32]
+assert [len(t_) for t_ in TEXTS[-3:]] == [32, 31, 32] and len(TEXTS[6]) == 33
 
 
 def norm(s):
